@@ -9,8 +9,8 @@ func checkC02(r *Run) {
 	r1 := r.Rule("R-C02-1", "stage monotonicity: after PUBREC only PUBREL-stage handles; no call path from the PUBREL stage to (*pktPublish).Pack / publishImpl")
 	r2 := r.Rule("R-C02-2", "Retry re-queues exactly continuation + unattempted tail, in that order, and stops at the first failure")
 	r3 := r.Rule("R-C02-3", "PUBREL stage succeeds only through its own PUBCOMP waiter (registered after PUBREC, keyed by message.ID)")
-	r1.Floor(4)
-	r2.Floor(4)
+	r1.Floor(3)
+	r2.Floor(3)
 	sites := c.sitesOrLost(r1)
 	uses := c.ruleRetryableFailures(nil, sites)
 	c.ruleStageMonotone(r1, sites, uses)
@@ -23,7 +23,7 @@ func checkC02(r *Run) {
 	}
 	c.ruleRegisterBeforeWrite(r3, st2, "no-fresh-in-stage")
 	c.ruleThreeWaySelect(nil, r3, st2)
-	r3.Floor(3)
+	r3.Floor(2)
 	r5 := r.Rule("R-C02-5", "never zero times: the reconnect loop resumes the retry queue after every successful Connect (R-C01-8)")
 	c.ruleReconnectResumes(r5)
 }
